@@ -196,9 +196,20 @@ func c05Probabilities(rng *rand.Rand) []F64 {
 
 var c05T = []float64{0, 1.0 / 1024, 0.125, 0.25, 0.5, 0.75, 1, 1.5, 2, 2.5, 3, 4, 5, 6, 8, 12, 16, 24, 40, 64, 100, 1000, 1e6}
 
-func c05TGrid(rng *rand.Rand, extra bool) []F64 {
+// TDist.CDF(x) = 1 - BetaInc(V/(V+x*x), V/2, 1/2)/2: BetaInc changes from its reflected to its
+// direct continued fraction where V/(V+x*x) = (a+1)/(a+b+2) with a = V/2, b = 1/2, i.e. at
+// x*x = 3V/(V+2).  The grid brackets that abscissa (dyadic neighbours and the float itself).
+func c05TSwitch(v float64) []float64 {
+	s := math.Sqrt(3 * v / (v + 2))
+	return []float64{s, math.Nextafter(s, 0), math.Nextafter(s, 2), math.Floor(s*4096) / 4096, math.Ceil(s*4096) / 4096}
+}
+
+func c05TGrid(rng *rand.Rand, v float64, extra bool) []F64 {
 	var xs []float64
 	for _, t := range c05T {
+		xs = append(xs, t, -t)
+	}
+	for _, t := range c05TSwitch(v) {
 		xs = append(xs, t, -t)
 	}
 	for i := 0; i < 6; i++ {
@@ -239,8 +250,8 @@ func c05Gen(tier string, rng *rand.Rand, emit func(interface{})) {
 		emit(c05Case{Op: 3, Mu: F64(mu), Sigma: F64(sigma), Seed: rng.Int63(), N: 50})
 	}
 	// ---- TDist: V in [0.1, 1e4]
-	for _, v := range []float64{0.1, 0.5, 1, 1.5, 2, 2.5, 3, 4, 5, 7.5, 10, 30, 31, 100, 200, 1000, 1e4} {
-		emit(c05Case{Op: 4, V: F64(v), Xs: c05TGrid(rng, true)})
+	for _, v := range []float64{0.1, math.Nextafter(0.1, 1), 0.3, 0.5, 0.75, math.Nextafter(1, 0), 1, 1.5, 2, 2.5, 3, 4, 5, 7.5, 10, 30, 31, 100, 200, 200.5, 1000, 9999.5, 1e4} {
+		emit(c05Case{Op: 4, V: F64(v), Xs: c05TGrid(rng, v, true)})
 	}
 	for it := 0; it < 60*mul; it++ {
 		var v float64
@@ -252,7 +263,7 @@ func c05Gen(tier string, rng *rand.Rand, emit func(interface{})) {
 		default:
 			v = math.Exp(math.Log(0.1) + rng.Float64()*math.Log(1e5))
 		}
-		emit(c05Case{Op: 4, V: F64(v), Xs: c05TGrid(rng, it%5 == 0)})
+		emit(c05Case{Op: 4, V: F64(v), Xs: c05TGrid(rng, v, it%5 == 0)})
 	}
 	// ---- DeltaDist
 	ys := []F64{0, F64(math.Copysign(0, -1)), 0.25, 0.5, 1, -0.5, 1.5, F64(-5e-324), F64(math.Nextafter(1, 2)), F64(math.Inf(1)), F64(math.Inf(-1)), F64(math.NaN())}
